@@ -1,13 +1,102 @@
 /-
-  Driver.OpsC11 — protocol operations for property C11 (filled in by the C11 work package).
-  Contract: `handleC11 op` returns the parser for operation `op` or `none` if `op` is not one of
-  this property's operations.
+  Driver.OpsC11 — protocol operations for property C11.
+
+  c11 <domEq> <U> strip… <U> incl… <U> excl… <U> annot… <ns> srcNames… <nr> refNames… <ns*nr> outcomes…
+      names are ids < U; strip/incl/excl/annot are tables over the id universe (incl/excl are evaluated by
+      the model on *stripped* ids; annot = the name is a cell-field name carrying a cell-type annotation);
+      outcome of comparing source field i with reference field j is entry i*nr+j (0 pass, 1 fail, 2 raise);
+      tags are positions.
+      → hyp=<distinct names on both sides> cls=<1 iff some plain source name is changed by strip (class F14)>
+        model=<verdict>;<suite entries in iteration order>;<callbacks>;<selector pairs>
+        spec=<verdict>;<report>            (spec printed only inside hyp; report `-` when the domains differ)
+        uspec=<verdict>;<report>           the same with the filters evaluated on user-level names
+  fcs <status-name>  → model=<truthy>,<bucket>      finite table of FieldComparisonStatus / suite buckets
+  findm <ns> src… <nr> ref…  → model=<pairs>;<orphansSrc>;<orphansRef>   (find_matches with `==` on ids, positions shown)
 -/
 import Driver.Proto
+import FcModel.Spec.C11
 namespace Fc.Drv
+open Fc
+
+def fstatusName : FStatus → String
+  | .passed => "passed"
+  | .failed => "failed"
+  | .error => "error"
+  | .missing_source => "missing_source"
+  | .missing_reference => "missing_reference"
+  | .filtered => "filtered"
+
+def parseFStatus (s : String) : Option FStatus :=
+  Gen.FieldComparisonStatus.all.find? (fun x => fstatusName x == s)
+
+def showCmps (cs : List Cmp) : String :=
+  if cs.isEmpty then "-" else ",".intercalate (cs.map (fun c => s!"{c.name}:{fstatusName c.status}"))
+
+def showPairs (ps : List (Nat × Nat)) : String :=
+  if ps.isEmpty then "-" else ",".intercalate (ps.map (fun p => s!"{p.1}:{p.2}"))
+
+def showNats (ps : List Nat) : String :=
+  if ps.isEmpty then "-" else ",".intercalate (ps.map toString)
+
+def tableFn {α} [Inhabited α] (t : List α) (i : Nat) : α := t.getD i default
+
+def opC11 : P String := do
+  let dom ← pBool
+  let strip ← pList pNat
+  let incl ← pList pBool
+  let excl ← pList pBool
+  let annot ← pList pBool
+  let srcN ← pList pNat
+  let refN ← pList pNat
+  let outs ← pList pNat
+  let U := strip.length
+  if incl.length ≠ U || excl.length ≠ U || annot.length ≠ U then failure
+  if !(strip.all (· < U)) || !(srcN.all (· < U)) || !(refN.all (· < U)) then failure
+  if outs.length ≠ srcN.length * refN.length || !(outs.all (· < 3)) then failure
+  let nr := refN.length
+  let src : List Fld := (List.zip srcN (List.range srcN.length)).map (fun p => ⟨p.1, p.2⟩)
+  let ref : List Fld := (List.zip refN (List.range nr)).map (fun p => ⟨p.1, p.2⟩)
+  let pred : Fld → Fld → Outcome := fun s t =>
+    match outs.getD (s.tag * nr + t.tag) 0 with
+    | 0 => .pass
+    | 1 => .fail
+    | _ => .raise
+  let sel := selectedName (tableFn strip) (tableFn incl) (tableFn excl)
+  let r := comparatorCall sel dom pred src ref
+  let hyp := Spec.hyp src ref
+  let model := s!"{showBool r.suite.bool};{showCmps r.suite.iter};{showCmps r.callbacks};{showPairs r.selector}"
+  let spec := if !hyp then "-" else
+    s!"{showBool (Spec.verdict sel dom pred src ref)};{if dom then showCmps (Spec.report sel pred src ref) else "-"}"
+  let usel := Spec.userSelected (tableFn strip) (tableFn annot) (tableFn incl) (tableFn excl)
+  let uspec := if !hyp then "-" else
+    s!"{showBool (Spec.verdict usel dom pred src ref)};{if dom then showCmps (Spec.report usel pred src ref) else "-"}"
+  let cls := !(Spec.plainFixed (tableFn strip) (tableFn annot) src)
+  pure s!"hyp={showBool hyp} cls={showBool cls} model={model} spec={spec} uspec={uspec}"
+
+def opFcs : P String := do
+  let t ← tok
+  match parseFStatus t with
+  | none => failure
+  | some s =>
+    let b := match bucketOf ⟨0, s⟩ with
+      | .passed => "passed"
+      | .failed => "failed"
+      | .skipped => "skipped"
+    pure s!"hyp=1 model={showBool s.truthy},{b} spec={showBool (!Spec.isFailure s)},-"
+
+def opFindm : P String := do
+  let srcN ← pList pNat
+  let refN ← pList pNat
+  let src := List.zip srcN (List.range srcN.length)
+  let ref := List.zip refN (List.range refN.length)
+  let r := findMatches (fun (a b : Nat × Nat) => a.1 == b.1) src ref
+  pure s!"hyp=1 model={showPairs (r.pairs.map (fun p => (p.1.2, p.2.2)))};{showNats (r.orphansSrc.map (·.2))};{showNats (r.orphansRef.map (·.2))} spec=-"
 
 def handleC11 (op : String) : Option (P String) :=
   match op with
+  | "c11" => some opC11
+  | "fcs" => some opFcs
+  | "findm" => some opFindm
   | _ => none
 
 end Fc.Drv
